@@ -292,6 +292,11 @@ def _strftime(I, dt, args, kw):
         if is_sym(v):
             _hint(I, 'hms', _th_hms, [sod, h, m, sec, v])
         return DecText(v, fmt)
+    if isinstance(fmt, str) and '\n' not in fmt:
+        # any other format: some text without a line break (only its being ONE line matters to the contracts that use it)
+        from .arrays import AbsStr
+        I.ctx.trust('datetime.strftime(<other format>): an abstract one-line text')
+        return AbsStr(I.ctx.fresh('strftime_text'))
     raise Unsupported('strftime %r' % (fmt,))
 
 
